@@ -15,6 +15,7 @@ lib.guard_expm(ode)
 import scikit_tt.data_driven.tdmd as tdmd
 import scikit_tt.data_driven.regression as reg
 import scikit_tt.data_driven.transform as tdt
+import scikit_tt.data_driven.tedmd as tedmd
 
 PROP_FILES = ['Props/C06.v']
 REQ = ['SkTT.Check.C06']
@@ -195,6 +196,9 @@ def _solver(code, f):
             if isinstance(o, TT):
                 ident = [i for i in args if h.pool[i].t is o]
                 if not ident:
+                    if any(o is q for q, _ in res):
+                        res.append((o, 'dup'))          # one object handed out twice by the same call
+                        continue
                     res.append((o, 'vec' if (o.order == h.order and list(o.row_dims) == h.dims and all(c == 1 for c in o.col_dims)) else 'misc'))
         return args, res, None
     return code, run
@@ -237,6 +241,64 @@ def _rank_transpose_any(h):
 def _tjm(h, A, x):
     np.random.seed(h.rng.getrandbits(31))
     return [ode.tjm_jump_process_tdvp(A, x, [[0.3 * np.eye(d)] for d in h.dims], [[0.5] for _ in h.dims], 0.01)]
+
+
+def _transpose_partial(h, overwrite=False):
+    # a fresh operator with non-square modes, transposed on a subset of its cores (not necessarily a prefix, any order)
+    r = h.rranks()
+    cd = [d + h.rng.randint(0, 2) for d in h.dims]
+    t = TT([h.entries((r[i], h.dims[i], cd[i], r[i + 1])) for i in range(h.order)])
+    a = h.add(t, 'misc')
+    h.log.append([0, [], [t.order], -1])
+    sub = h.rng.sample(range(h.order), h.rng.randint(1, h.order))
+    if overwrite:
+        t.transpose(cores=sub, conjugate=h.rng.random() < 0.5, overwrite=True)
+        return [a], [], a
+    return [a], [(t.transpose(cores=sub, conjugate=h.rng.random() < 0.5), 'misc')], None
+
+
+def _prefix(h, A, x):
+    # a trajectory state, once appended, is a live result: later steps of the same call must not change it, so the
+    # trajectory of n steps starts with the trajectory of n-1 steps (deterministic integrators)
+    name = h.rng.choice(['tdvp1site', 'tdvp2site', 'explicit_euler', 'hod'])
+    nrm = h.rng.choice([0, 2, 2])
+    n = h.rng.randint(2, 3)
+    def call(k):
+        if name == 'explicit_euler':
+            return ode.explicit_euler(A, x, [0.01] * k, normalize=nrm, progress=False)
+        if name == 'hod':
+            return ode.hod(A, x, 0.01, k, normalize=nrm, progress=False)
+        return getattr(ode, name)(A, x, 0.01, k, normalize=nrm)
+    long, short = call(n), call(n - 1)
+    for k in range(1, n):
+        a_, b_ = long[k].full(), short[k].full()
+        if a_.shape != b_.shape or not np.allclose(a_, b_, rtol=1e-7, atol=1e-9 * (1 + np.abs(b_).max())):
+            raise PrefixError('%s(normalize=%d): state %d of the %d-step trajectory differs from state %d of the %d-step trajectory '
+                              '(a returned state was changed by a later step)' % (name, nrm, k, n, k, n - 1))
+    return long[1:]
+
+
+class PrefixError(Exception):
+    pass
+
+
+def _amuset(h, variant):
+    # tensor-based EDMD on a small data set with a list of index-set pairs, one of them with very few snapshots (the reduced
+    # SVD then keeps fewer directions than the last TT rank); results: the eigentensors
+    d, m = 2, 7
+    x = np.array([[h.rng.uniform(-1, 1) for _ in range(m)] for _ in range(d)])
+    p = h.rng.randint(2, 3)
+    basis = [[tdt.ConstantFunction(k % d), tdt.Identity(k % d), tdt.Monomial(k % d, 2)][:h.rng.randint(2, 3)] for k in range(p)]
+    def idx(k):
+        i0 = h.rng.sample(range(m - 1), k)
+        return np.array(i0), np.array(i0) + 1
+    pairs = [idx(h.rng.choice([1, 2, 5])) for _ in range(h.rng.randint(1, 3))]
+    if variant == 'hosvd':
+        out = tedmd.amuset_hosvd(x, [a for a, _ in pairs], [b for _, b in pairs], basis, threshold=1e-12)
+    else:
+        out = tedmd.amuset_hocur(x, [a for a, _ in pairs], [b for _, b in pairs], basis, max_rank=50)
+    et = out[1]
+    return [], [(t, 'misc') for t in (et if isinstance(et, list) else [et])], None
 
 
 def steps(h):
@@ -304,6 +366,11 @@ OPS = {
     'arr_list': _solver(56, lambda h, A, x, b: _arr(h, x, as_list=True)),
     'tjm_jump': _solver(62, lambda h, A, x, b: _tjm(h, A, x)),
     'rank_transpose_any': (8, _rank_transpose_any),
+    'transpose_partial': (6, _transpose_partial),
+    'transpose_partial_ow': (33, lambda h: _transpose_partial(h, True)),
+    'prefix': _solver(63, lambda h, A, x, b: _prefix(h, A, x)),
+    'amuset_hosvd': (64, lambda h: _amuset(h, 'hosvd')),
+    'amuset_hocur': (64, lambda h: _amuset(h, 'hocur')),
     'new_eye': _new(61, lambda h: ttm.eye(list(h.dims)), 'op'),
     'new_ones': _new(61, lambda h: ttm.ones(list(h.dims), [1] * h.order, ranks=h.rng.randint(1, 2)), 'vec'),
     # (no tt.zeros: the zero tensor with a threshold is finding F14 -- rank-0 cores -- and LAPACK corrupts the heap on the empty
@@ -331,6 +398,9 @@ def run_history(seed, length, cplx=None, only=None):
         raised = False
         try:
             args, results, target = fn(h)
+        except PrefixError as e:
+            desc['ops'].append(name)
+            return str(e), desc
         except Exception as e:
             raised = True
             desc['ops'].append(name + ' !raised')
@@ -342,6 +412,8 @@ def run_history(seed, length, cplx=None, only=None):
         for t, kind in results:
             if kind is None or not isinstance(t, TT):
                 continue
+            if kind == 'dup':
+                return '%s handed out the same tensor-train object twice among its results' % name, desc
             if not consistent(t):
                 return 'result of %s has inconsistent order/dims/ranks/cores' % name, desc
             if not np.any(dense(t.cores)):
